@@ -507,19 +507,55 @@ def w_depth_image(ctx, rng, i):
     if not msk.ravel()[tl].all(axis=1).any():
         ctx.count_case(("depth", cls, "no_triangle"), nontrivial=False)
         return
+    flat = msk.ravel()
+    kept_tris = tl[flat[tl].all(axis=1)]
+    orphans = bool((flat & ~np.isin(np.arange(flat.size), kept_tris)).any())
+    cols = rng.random((shp[0] * shp[1], 3))
+    tc_kind = int(rng.integers(0, 2))
+    tc = rng.random((shp[0] * shp[1], 2)) if tc_kind else None
     try:
         if cls == "TriMesh":
             m = ms.TriMesh.init_from_depth_image(img)
         elif cls == "ColouredTriMesh":
-            m = ms.ColouredTriMesh.init_from_depth_image(img, colours=rng.random((shp[0] * shp[1], 3)))
+            m = ms.ColouredTriMesh.init_from_depth_image(img, colours=cols.copy()) if i % 2 else ms.ColouredTriMesh.init_from_depth_image(img)
         else:
-            m = ms.TexturedTriMesh.init_from_depth_image(img)
+            m = ms.TexturedTriMesh.init_from_depth_image(img, tcoords=tc.copy()) if tc is not None else ms.TexturedTriMesh.init_from_depth_image(img)
     except Exception as e:
         # init_from_depth_image stacks depth values of all masked pixels onto the vertices that kept a triangle: only
         # masks without orphan pixels are inside its domain
+        if not orphans:
+            ctx.fail("masked_depth_image_mesh_could_not_be_built", cls=cls, mech=type(e).__name__, error=repr(e)[:160])
         ctx.bump("depth_image_orphan_mask_raised")
         ctx.count_case(("depth", cls, "orphans"), nontrivial=False)
         return
+    if not orphans:
+        # the mesh of the valid pixels: each vertex keeps its own grid position, depth, colour and texture coordinate
+        ctx.tap("masked_depth_image_mesh", "calls"); ctx.tap("masked_depth_image_mesh", "checked")
+        gy, gx = np.meshgrid(np.arange(shp[0]), np.arange(shp[1]), indexing="ij")
+        exp_pts = np.stack([gy.ravel()[flat], gx.ravel()[flat], img.pixels[0].ravel()[flat]], axis=1).astype(float)
+        renum = np.cumsum(flat) - 1
+        exp_tl = renum[kept_tris]
+        if m.points.shape != exp_pts.shape or _amax(np.asarray(m.points, dtype=float) - exp_pts) > 0:
+            ctx.fail("masked_depth_image_mesh_has_the_wrong_vertices", cls=cls, mech="points")
+        elif sorted(map(tuple, np.sort(np.asarray(m.trilist), axis=1).tolist())) != sorted(map(tuple, np.sort(exp_tl, axis=1).tolist())):
+            ctx.fail("masked_depth_image_mesh_has_the_wrong_vertices", cls=cls, mech="triangles")
+        elif cls == "ColouredTriMesh":
+            exp_c = cols[flat] if i % 2 else None
+            if np.asarray(m.colours).shape[0] != int(flat.sum()) or (exp_c is not None and _amax(np.asarray(m.colours, dtype=float) - exp_c) > 0):
+                ctx.fail("colours_not_carried_along_with_their_vertices", cls=cls, mech="masked_depth_image")
+        elif cls == "TexturedTriMesh":
+            exp_t = tc[flat] if tc is not None else np.asarray(ms.TexturedTriMesh.init_2d_grid(shp).tcoords.points)[flat]
+            got_t = np.asarray(m.tcoords.points, dtype=float)
+            if got_t.shape != exp_t.shape or _amax(got_t - exp_t) > 0:
+                ctx.fail("texture_coordinates_not_carried_along_with_their_vertices", cls=cls, mech="masked_depth_image:" + ("given" if tc is not None else "default"))
+            else:
+                # ... and stays a mesh that can be masked again
+                try:
+                    m.from_mask(np.ones(m.n_points, dtype=bool))
+                    k_ = np.ones(m.n_tris, dtype=bool); k_[0] = m.n_tris == 1
+                    m.from_tri_mask(k_)
+                except Exception as e:
+                    ctx.fail("masked_depth_image_mesh_cannot_be_masked_again", cls=cls, mech=type(e).__name__)
     m.tri_areas(); m.boundary_tri_index(); m.tri_normals()
     ctx.count_case(("depth", cls, shp, int(msk.sum())), nontrivial=not msk.all())
 
